@@ -35,6 +35,8 @@ def plan(tier, seed):
             k += 1
             cfg = CONFIGS[(k * 5 + pat) % len(CONFIGS)]
             qs.append(full_query('C05', n, pat, pv, perms(n)[(k + pat) % len(perms(n))], cfg, dyn=(k % 2 == 0), nprocs=1 + k % 2, tagx='.slot'))
+    # (1b) larger shapes (n=5,6; pinned values): deeper supernodes, both storage schemes
+    qs += [q for i, q in enumerate(big_plan('C05', tier, seed))]
     # (2) bit-precise memory safety of the same code (pointer / bounds checks of every access)
     sel = [(2, 0xf, (0, 1)), (2, 0xf, (1, 0)), (2, 0x7, (0, 1)), (2, 0xb, (1, 0)), (3, 0x1ff, (0, 1, 2)), (3, 0x1ff, (2, 0, 1)), (3, 0x0bd, (1, 2, 0)), (3, 0x1b7, (0, 2, 1))]
     if tier == 'thorough':
